@@ -117,6 +117,8 @@ func BuildMulti(g string, s []ro.Observable[any]) (ro.Observable[any], error) {
 		return tupleAny(ro.Zip2(s[0], s[1])), nil
 	case "Zip3":
 		return tupleAny(ro.Zip3(s[0], s[1], s[2])), nil
+	case "ZipWith2":
+		return tupleAny(ro.ZipWith2[any](s[1], s[2])(s[0])), nil
 	case "ZipWith":
 		return tupleAny(ro.ZipWith[any](s[1])(s[0])), nil
 	case "ZipWith1":
